@@ -102,7 +102,7 @@ theorem addExpried_off_leader (w : W) (rid : Nat) (h : w.db.leader = false) : w.
     exact pushLockAofN_off_leader _ _ _ (by simpa [W.schedExpried] using h)
 
 /-- the deferral branch of `doExpried`, spelled out -/
-theorem fireExpire_deferred (w : W) (rid : Nat) (hm : w.k.hasRec rid) (hl : w.db.leader = false)
+theorem fireExpire_deferred (w : W) (rid : Nat) (hm : w.k.hasRec rid) (hs : (w.k.getR rid).eSched.isSome = true) (hl : w.db.leader = false)
     (hd : deferExpiry w.db (w.k.getR rid) = true) (he : (w.k.getR rid).expried = false) :
     (w.fireExpire rid).out = w.out ∧ (w.fireExpire rid).gone = w.gone ∧ (w.fireExpire rid).k.key = w.k.key ∧
     (w.fireExpire rid).k.getR rid =
@@ -111,8 +111,13 @@ theorem fireExpire_deferred (w : W) (rid : Nat) (hm : w.k.hasRec rid) (hl : w.db
                             eSched := some (Slock.Engine.wheelAdd w.db.eCheck w.db.seq (w.db.now + 30) (w.k.getR rid).eChecked).2 } ∧
     (w.fireExpire rid).k.locked = w.k.locked ∧ (w.fireExpire rid).k.current = w.k.current ∧ (w.fireExpire rid).k.locks = w.k.locks ∧
     (w.fireExpire rid).db.keys = w.db.keys := by
+  have hE : w.k.hasE rid = true := by
+    unfold Key.hasE
+    simp only [hs, Bool.and_true]
+    obtain ⟨r, hr, e⟩ := hm
+    exact List.any_eq_true.mpr ⟨r, hr, by simp [e]⟩
   unfold W.fireExpire
-  simp only [he, hd, Bool.false_eq_true, if_false, if_true]
+  simp only [hE, he, hd, Bool.not_true, Bool.false_eq_true, if_false, if_true]
   rw [addExpried_off_leader _ _ (by simpa using hl)]
   have h2 : (w.k.modRec rid fun r => { r with expT := w.db.now + 30 }).hasRec rid := by
     rw [hasRec_modRec _ _ _ _ (by intro _; rfl)]; exact hm
@@ -121,17 +126,7 @@ theorem fireExpire_deferred (w : W) (rid : Nat) (hm : w.k.hasRec rid) (hl : w.db
   unfold W.schedExpried
   simp only [modR_k, modR_db, modR_out, modR_gone, hr]
   refine ⟨trivial, trivial, rfl, ?_, rfl, rfl, rfl, trivial⟩
-  have hs := getR_setRec_same (w.k.modRec rid fun r => { r with expT := w.db.now + 30 })
-    { rid := rid, hid := (w.k.getR rid).hid, cmd := (w.k.getR rid).cmd, data := (w.k.getR rid).data, conn := (w.k.getR rid).conn,
-      depth := (w.k.getR rid).depth, startT := (w.k.getR rid).startT,
-      expT := (Slock.Engine.wheelAdd w.db.eCheck w.db.seq (w.db.now + 30) (w.k.getR rid).eChecked).1,
-      timeoutT := (w.k.getR rid).timeoutT, timeouted := (w.k.getR rid).timeouted, expried := false, isAof := (w.k.getR rid).isAof,
-      aofTime := (w.k.getR rid).aofTime, refCount := (w.k.getR rid).refCount, tChecked := (w.k.getR rid).tChecked,
-      eChecked := (w.k.getR rid).eChecked, tSched := (w.k.getR rid).tSched,
-      eSched := some (Slock.Engine.wheelAdd w.db.eCheck w.db.seq (w.db.now + 30) (w.k.getR rid).eChecked).2,
-      aofData := (w.k.getR rid).aofData } h2
-  have hrid := getR_rid w.k rid
-  simp only [hrid] at hs ⊢
-  exact hs
+  rw [getR_modRec_same _ _ _ (by intro _; rfl) h2, hr]
+  rfl
 
 end Slock.Engine2
